@@ -1665,6 +1665,18 @@ func runC13(c *hc.Ctx) error {
 			k.Race = true
 			cases = append(cases, k)
 		}
+		// finding F25 (known, not repaired): a '?' in the target path.  go-sqlite3 reads it as the start of the DSN parameters,
+		// so the file is created under the name cut off there; with two ids both targets are that one file
+		for i, tg := range []string{"q?d.gpkg", "sub/x?mode=ro.gpkg", "who?/x.gpkg"} {
+			if i >= c.N(2, 3) {
+				break
+			}
+			k := genC13Case(c.Rng, len(cases), "fresh")
+			k.Target = tg
+			k.Mkdirs = []string{"sub"}
+			k.Race = false
+			cases = append(cases, k)
+		}
 		// some ordinary cases through the race build as well
 		for i := range cases {
 			if i%10 == 3 {
@@ -1799,7 +1811,15 @@ func runC13(c *hc.Ctx) error {
 			c.Violate(hc.Violation{What: "the race detector reports a data race in the binary", Input: k, Observed: r.run.Stderr})
 		}
 		for _, p := range c13Oracle(k, r.run, r.exp, filepath.Join(scratch, fmt.Sprintf("run%d", k.ID))) {
-			c.Violate(hc.Violation{What: p.What, Input: k, Observed: p.Observed, Expected: p.Expected})
+			v := hc.Violation{What: p.What, Input: k, Observed: p.Observed, Expected: p.Expected}
+			if strings.Contains(k.Target, "?") && k.TmsOK {
+				v.KnownFinding = "F25"
+			}
+			c.Violate(v)
+		}
+		if strings.Contains(k.Target, "?") {
+			c.Count("target path with a question mark (finding F25): oracle only")
+			continue
 		}
 		// correspondence: small cases only (the hazard class is oracle-only)
 		nfeat := 0
